@@ -13,7 +13,7 @@ from .edits import Insert, Match, Remove
 from .matching import WeightedBipartiteMatcher
 from .sequences import SequenceEdit, SequenceNode
 from .tree import Edit, TreeNode
-from .utils import HashableCounter, largest
+from .utils import HashableCounter, largest, smallest
 
 
 class MultiSetEdit(SequenceEdit):
@@ -105,24 +105,46 @@ class MultiSetEdit(SequenceEdit):
         for kvp_edit in self._matched_kvp_edits:
             if kvp_edit.tighten_bounds():
                 return True
-        return self._matcher.tighten_bounds()
+        if self._matcher.tighten_bounds():
+            return True
+        elif not self._matcher.is_complete():
+            # The matcher's bounds can be definitive before the matching itself has been computed;
+            # we need the matching to know which nodes remain unmatched
+            bounds_before = self.bounds()
+            _ = self._matcher.matching
+            return self.bounds() != bounds_before
+        return False
 
     def bounds(self) -> Range:
         b = self._matcher.bounds()
         for kvp_edit in self._matched_kvp_edits:
             b = b + kvp_edit.bounds()
-        if len(self.to_remove) > len(self.to_insert):
-            for edit in largest(
-                    *(Remove(to_remove=r, remove_from=self.from_node) for r in self.to_remove),
-                    n=len(self.to_remove) - len(self.to_insert),
-                    key=lambda e: e.bounds()
-            ):
-                b = b + edit.bounds()
-        elif len(self.to_remove) < len(self.to_insert):
-            for edit in largest(
-                    *(Insert(to_insert=i, insert_into=self.from_node) for i in self.to_insert),
-                    n=len(self.to_insert) - len(self.to_remove),
-                    key=lambda e: e.bounds()
-            ):
-                b = b + edit.bounds()
-        return b
+        num_to_remove = sum(self.to_remove.values())
+        num_to_insert = sum(self.to_insert.values())
+        if num_to_remove == num_to_insert:
+            return b
+        elif num_to_remove > num_to_insert:
+            unmatched = [Remove(to_remove=r, remove_from=self.from_node) for r in self.to_remove.elements()]
+            matched_index = 0
+        else:
+            unmatched = [Insert(to_insert=i, insert_into=self.from_node) for i in self.to_insert.elements()]
+            matched_index = 1
+        num_unmatched = abs(num_to_remove - num_to_insert)
+        if self._matcher.is_complete():
+            # The matching is known, so count exactly the removals/insertions that self.edits() will emit
+            matched: HashableCounter[TreeNode] = HashableCounter()
+            for matched_edge in self._matcher.matched_edges():
+                matched[matched_edge[matched_index]] += 1
+            lb = ub = 0
+            for edit in unmatched:
+                if matched[edit.from_node] > 0:
+                    matched[edit.from_node] -= 1
+                else:
+                    lb += edit.bounds().lower_bound
+                    ub += edit.bounds().upper_bound
+        else:
+            # We do not know yet which nodes will remain unmatched: it will cost at least as much as the cheapest ones
+            # and at most as much as the most expensive ones
+            lb = sum(e.bounds().lower_bound for e in smallest(unmatched, n=num_unmatched, key=lambda e: e.bounds()))
+            ub = sum(e.bounds().upper_bound for e in largest(unmatched, n=num_unmatched, key=lambda e: e.bounds()))
+        return Range(b.lower_bound + lb, b.upper_bound + ub)
